@@ -231,6 +231,9 @@ def interface_check(src_prg, result, cfg, rec) -> Optional[str]:
     if new_input_heads:
         return f"input predicate(s) {sorted(new_input_heads)} got a defining rule"
     src_voc = vocabulary(src_prg)
+    captured = (res_heads & src_voc) - src_heads
+    if captured:
+        return f"predicate(s) {sorted(captured)} that the source uses but does not define got a defining rule"
     clash = (res_heads - src_voc) & declared
     if clash:
         return f"invented head predicate(s) {sorted(clash)} coincide with declared input/output predicates"
